@@ -17,8 +17,10 @@ func genC01(t *rapid.T) KeyCase {
 }
 
 func genC02(t *rapid.T) KeyCase {
-	d := genWorld(t, WorldOpts{Modes: allModes, MaxMappings: 3, Actions: allKeyActions[:10], ActionProb: 80, Subs: 2, Twins: true, Overlap: true})
-	steps := genHistory(t, d, HistOpts{MaxLen: 50, StateBias: 70, BurstMax: 3, Repeats: true, UnmappedKey: true})
+	// key-emulating axes are part of the worlds (held deflected across the actions, shaped differently or absent in the other
+	// mappings): "the actions themselves emit no MIDI messages" is owed whatever else the device is holding
+	d := genWorld(t, WorldOpts{Modes: allModes, MaxMappings: 3, Actions: allKeyActions[:10], ActionProb: 80, Subs: 2, Twins: true, Overlap: true, KeyAxes: 2, AxesVary: true})
+	steps := genHistory(t, d, HistOpts{MaxLen: 50, StateBias: 70, BurstMax: 3, Repeats: true, UnmappedKey: true, Axes: true})
 	return KeyCase{D: d, Steps: steps, NoLogs: rapid.IntRange(0, 7).Draw(t, "nologs") > 0, Bystander: genBystander(t, d)}
 }
 
